@@ -44,7 +44,11 @@ def fresh(base):
 
 
 def main():
-    if sys.argv[1] == "--reverify":
+    if sys.argv[1] == "--files":
+        # tools/verify_seed.py --files <patch> <demo> <notes> <prop> <variant> [--file]
+        patch, demo, notes, prop, which = sys.argv[2:7]
+        out_dir = os.path.dirname(patch)
+    elif sys.argv[1] == "--reverify":
         # re-confirm an already filed seed (seeded/<Cnn-X>/) against /repo's current tree
         prop, which = sys.argv[2].split("-")
         out_dir = os.path.join(VERIF, "seeded", sys.argv[2])
